@@ -8,13 +8,16 @@ Set Default Timeout 60.
 
 Definition rp_fuel : nat := 3.
 
-Fixpoint src_rect_points_run (n : nat) (s : rectangle_Points) : list point :=
+(* the iterator driven until its first None.  None = the step budget n ran out before the iterator finished (or `next` itself
+   ran out of its fuel); Some l = the iterator yielded l and then None *)
+Fixpoint src_rect_points_collect (n : nat) (s : rectangle_Points) : option (list point) :=
   match n with
-  | O => []
+  | O => None
   | Datatypes.S k =>
       match src_rectangle_Points_next rp_fuel s with
-      | Some (s', Some p) => p :: src_rect_points_run k s'
-      | _ => []
+      | Some (s', Some p) => option_map (cons p) (src_rect_points_collect k s')
+      | Some (_, None) => Some []
+      | None => None
       end
   end.
 
@@ -56,30 +59,38 @@ Definition rest (a b : Z) : list point := map (fun x => P x b) (range a xe) ++ f
 
 Lemma run_rows : forall m b, Z.of_nat m = ye - b -> (1 <= m)%nat ->
   forall n a, Z.of_nat n = Z.max 0 (xe - a) -> xs <= a ->
-  forall K, src_rect_points_run K (st a xe b ye xs) = firstn K (rest a b).
+  forall K, src_rect_points_collect K (st a xe b ye xs) = if (length (rest a b) <? K)%nat then Some (rest a b) else None.
 Proof.
   induction m as [|m IHm]; [lia|]. intros b Hm _.
   induction n as [|n IHn]; intros a Hn Ha K.
-  - destruct K; [reflexivity|]. cbn [src_rect_points_run].
+  - destruct K; [reflexivity|]. cbn [src_rect_points_collect].
     destruct m as [|m'].
     + destruct (next_end a xe b ye xs) as [s' E]; try lia. rewrite E.
       unfold rest. rewrite (range_nil a xe) by lia. rewrite (range_nil (b + 1) ye) by lia. reflexivity.
     + rewrite next_new_row by lia.
-      unfold rest at 1. rewrite (range_nil a xe) by lia. rewrite (range_cons (b + 1) ye) by lia.
-      cbn [map app flat_map]. unfold row at 1. rewrite (range_cons xs xe) by lia. cbn [map app firstn].
-      f_equal.
+      assert (ER : rest a b = P xs (b + 1) :: rest (xs + 1) (b + 1)).
+      { unfold rest at 1. rewrite (range_nil a xe) by lia. rewrite (range_cons (b + 1) ye) by lia.
+        cbn [map app flat_map]. unfold row at 1. rewrite (range_cons xs xe) by lia. reflexivity. }
+      rewrite ER. cbn [length].
       rewrite (IHm (b + 1) ltac:(lia) ltac:(lia) (Z.to_nat (xe - (xs + 1))) (xs + 1) ltac:(lia) ltac:(lia) K).
-      reflexivity.
-  - destruct K; [reflexivity|]. cbn [src_rect_points_run].
+      change (Datatypes.S (length (rest (xs + 1) (b + 1))) <? Datatypes.S K)%nat with (length (rest (xs + 1) (b + 1)) <? K)%nat.
+      destruct (length (rest (xs + 1) (b + 1)) <? K)%nat; reflexivity.
+  - destruct K; [reflexivity|]. cbn [src_rect_points_collect].
     rewrite next_in_row by lia.
-    unfold rest at 1. rewrite (range_cons a xe) by lia. cbn [map app firstn]. f_equal.
-    rewrite (IHn (a + 1) ltac:(lia) ltac:(lia) K). reflexivity.
+    assert (ER : rest a b = P a b :: rest (a + 1) b).
+    { unfold rest at 1. rewrite (range_cons a xe) by lia. reflexivity. }
+    rewrite ER. cbn [length].
+    rewrite (IHn (a + 1) ltac:(lia) ltac:(lia) K).
+    change (Datatypes.S (length (rest (a + 1) b)) <? Datatypes.S K)%nat with (length (rest (a + 1) b) <? K)%nat.
+    destruct (length (rest (a + 1) b) <? K)%nat; reflexivity.
 Qed.
 End Run.
 
-Theorem src_rect_points_eq r extra :
+(* both directions: with a budget above the number of points the run finishes with exactly the points of the model; with a smaller
+   budget it does not finish (None) *)
+Theorem src_rect_points_eq r n :
   rect_ok r ->
-  src_rect_points_run (length (points r) + extra) (src_rectangle_Points_new r) = points r.
+  src_rect_points_collect n (src_rectangle_Points_new r) = if (length (points r) <? n)%nat then Some (points r) else None.
 Proof.
   intros H. rewrite (points_row_major r H).
   unfold src_rectangle_Points_new.
@@ -87,7 +98,7 @@ Proof.
   change (src_Rectangle_rows r) with (rows r).
   destruct (rows_columns_spec r H) as [Er Ec]. rewrite Ec, Er. cbv zeta. cbn [fst].
   destruct (is_zero_sized r) eqn:Ez.
-  - cbn [length Nat.add]. destruct extra; [reflexivity|]. cbn [src_rect_points_run].
+  - cbn [length]. destruct n; [reflexivity|]. cbn [src_rect_points_collect].
     change src_rectangle_Points_empty with (st 0 0 0 0 0). rewrite next_empty by lia. reflexivity.
   - unfold is_zero_sized in Ez. apply Bool.orb_false_iff in Ez. destruct Ez as [Eh Ew].
     apply Z.eqb_neq in Eh. apply Z.eqb_neq in Ew.
@@ -98,7 +109,7 @@ Proof.
     rewrite (run_rows x0 (x0 + w) (y0 + h) ltac:(lia) (Z.to_nat h) y0 ltac:(lia) ltac:(lia) (Z.to_nat w) x0 ltac:(lia) ltac:(lia)).
     assert (E : rest x0 (x0 + w) (y0 + h) x0 y0 = row_major x0 (x0 + w) y0 (y0 + h)).
     { unfold rest, row_major. rewrite (range_cons y0 (y0 + h)) by lia. reflexivity. }
-    rewrite E. apply firstn_all2. lia.
+    rewrite E. reflexivity.
 Qed.
 
 (* ---- DistanceIterator: the translated `next` maps the rectangle iterator through the distance computation ---- *)
@@ -108,24 +119,25 @@ Definition src_dist_item (c2x p : point) : point * point * Z :=
   let delta := src_Point_sub (src_Point_mul_i32 p 2) c2x in
   (p, delta, Casts.cast_i32_u32 (src_Point_length_squared delta)).
 
-Fixpoint src_distances_run (n : nat) (d : DistanceIterator) : list (point * point * Z) :=
+Fixpoint src_distances_collect (n : nat) (d : DistanceIterator) : option (list (point * point * Z)) :=
   match n with
-  | O => []
+  | O => None
   | Datatypes.S k =>
       match src_DistanceIterator_next rp_fuel d with
-      | Some (d', Some t) => t :: src_distances_run k d'
-      | _ => []
+      | Some (d', Some t) => option_map (cons t) (src_distances_collect k d')
+      | Some (_, None) => Some []
+      | None => None
       end
   end.
 
-Lemma src_distances_run_eq n : forall c2x s,
-  src_distances_run n (Build_DistanceIterator c2x s) = map (src_dist_item c2x) (src_rect_points_run n s).
+Lemma src_distances_collect_eq n : forall c2x s,
+  src_distances_collect n (Build_DistanceIterator c2x s) = option_map (map (src_dist_item c2x)) (src_rect_points_collect n s).
 Proof.
   induction n as [|n IH]; intros c2x s; [reflexivity|].
-  cbn [src_distances_run src_rect_points_run]. unfold src_DistanceIterator_next.
+  cbn [src_distances_collect src_rect_points_collect]. unfold src_DistanceIterator_next.
   cbn [DistanceIterator_points DistanceIterator_center_2x]. change 3%nat with rp_fuel.
-  destruct (src_rectangle_Points_next rp_fuel s) as [[s' [p|]]|]; cbn [map]; try reflexivity.
-  cbn [DistanceIterator_center_2x]. rewrite IH. reflexivity.
+  destruct (src_rectangle_Points_next rp_fuel s) as [[s' [p|]]|]; cbn [map option_map]; try reflexivity.
+  cbn [DistanceIterator_center_2x]. rewrite IH. destruct (src_rect_points_collect n s'); reflexivity.
 Qed.
 
 (* the cast of the squared distance is the identity when it is a value of u32 *)
@@ -141,13 +153,14 @@ Proof.
   unfold sm_len2. nia.
 Qed.
 
-Theorem src_distances_eq c2x r extra :
+Theorem src_distances_eq c2x r n :
   rect_ok r ->
   (forall p, In p (points r) -> sm_len2 (psub (sm_twice p) c2x) <= u32_max) ->
-  src_distances_run (length (points r) + extra) (src_DistanceIterator_new c2x r)
-  = map (sm_dist_item c2x) (points r).
+  src_distances_collect n (src_DistanceIterator_new c2x r)
+  = if (length (points r) <? n)%nat then Some (map (sm_dist_item c2x) (points r)) else None.
 Proof.
   intros H Hd. unfold src_DistanceIterator_new, src_Rectangle_points.
-  rewrite src_distances_run_eq, src_rect_points_eq by exact H.
+  rewrite src_distances_collect_eq, src_rect_points_eq by exact H.
+  destruct (length (points r) <? n)%nat; [|reflexivity]. cbn [option_map]. f_equal.
   apply map_ext_in. intros p Hp. apply src_dist_item_eq. apply Hd. exact Hp.
 Qed.
